@@ -14,7 +14,7 @@ def main():
     import loguru._logger as lg
     logger = lg.Logger(core=lg.Core(), exception=None, depth=0, record=False, lazy=False, colors=False, raw=False,
                        capture=True, patchers=[], extra={})
-    base = tempfile.mkdtemp(prefix="verif_c15_")
+    base = cfg.get("base") or tempfile.mkdtemp(prefix="verif_c15_")
     bad = []
     stop = threading.Event()
 
